@@ -206,9 +206,10 @@ Proof.
   2:{ intros H. inversion H; subst. exact Hnil. }
   destruct (ty =? 1).
   - destruct (hb_recv (cf me)); cbn [negb]; [|discriminate].
-    destruct (zlen pad <? 16); intros H; inversion H; subst; [exact Hnil|].
+    destruct (zlen pad <? 16); [intros H; inversion H; subst; exact Hnil|].
+    destruct (recsize (cf me) <? zlen (hb_write 2 payload (padding 16))); intros H; inversion H; subst; [exact Hnil|].
     split; [apply same_core_refl|]. split; [reflexivity|].
-    intros r Hr. apply in_map_iff in Hr. destruct Hr as [f [Hf _]]. subst r. split; [reflexivity|]. exists f. reflexivity.
+    intros r [Hr|[]]. subst r. split; [reflexivity|]. eexists. reflexivity.
   - destruct ((ty =? 2) && hb_cb (cf me)); intros H; inversion H; subst; [|exact Hnil].
     split; [repeat split|]. split; [reflexivity|]. intros r [].
 Qed.
@@ -377,9 +378,9 @@ Proof.
       * apply chdata_nodata. intros x Hx. destruct (Hout x Hx) as [_ [f Hf]]. rewrite Hf. reflexivity.
       * intros _ x Hx. destruct (Hout x Hx) as [_ [f Hf]]. rewrite Hf. reflexivity.
     + (* MNST *)
-      destruct v13; [|apply die_post; [exact Hpre|rewrite Eb; reflexivity|rewrite Eb; reflexivity|apply same_core_refl|exact Ha]].
+      destruct (v13 && is_cl (cf me)); [|apply die_post; [exact Hpre|rewrite Eb; reflexivity|rewrite Eb; reflexivity|apply same_core_refl|exact Ha]].
       apply post_skip; [rewrite Eb; reflexivity|].
-      assert (Hp1 : pre true me inc' wp) by (eapply pre_skip; [exact Hpre|rewrite Eb; reflexivity]).
+      assert (Hp1 : pre v13 me inc' wp) by (eapply pre_skip; [exact Hpre|rewrite Eb; reflexivity]).
       apply (post_core _ _ (add_ticket me)); [repeat split|].
       apply block_post in Hp1. unfold post in *. cbn in *. tauto.
     + (* MCertReq *)
@@ -531,10 +532,11 @@ Proof.
   - (* OHeartbeat *)
     destruct (closed (io (ea s))); cbn [fst]; [exact H|].
     destruct (negb (hb_sup (cf (ea s))) || negb (hb_send (cf (ea s)))); cbn [fst]; [exact H|].
+    destruct (recsize (cf (ea s)) <? zlen (hb_write 1 payload (padding padlen))); cbn [fst]; [exact H|].
     apply upd_inv; auto.
-    + unfold emit. apply in_step_map_nk. reflexivity.
-    + unfold emit. rewrite chdata_map_nodata; [rewrite app_nil_r; reflexivity|reflexivity].
-    + intros _. unfold emit. apply noku_map. reflexivity.
+    + cbn. split; reflexivity.
+    + cbn. rewrite app_nil_r. reflexivity.
+    + intros _ x [Hx|[]]. subst x. reflexivity.
   - (* OTickets *)
     destruct (closed (io (ea s)) || negb (g13 s) || is_cl (cf (ea s))); cbn [fst]; [exact H|].
     assert (Hr : forall x, In x (repeat (emit (ea s) MNST) (Z.to_nat k)) -> x = emit (ea s) MNST)
@@ -608,18 +610,12 @@ Proof.
 Qed.
 
 (* ---- heartbeat ------------------------------------------------------------------------------ *)
-Lemma hb_bytes_map me l : hb_bytes (map (fun f => emit me (MHB f)) l) = concat l.
-Proof.
-  unfold hb_bytes. induction l as [|x l IH]; cbn [map flat_map concat]; [reflexivity|].
-  cbn [emit body]. rewrite IH. reflexivity.
-Qed.
-
 Lemma hb_echo me b me1 out :
   on_heartbeat me b = Some (me1, out) -> out <> [] ->
   exists payload pad, hb_parse b = Some (1, payload, pad) /\ 16 <= zlen pad /\
     hb_recv (cf me) = true /\ hb_sup (cf me) = true /\
-    hb_bytes out = hb_write 2 payload (padding 16) /\
-    (forall r, In r out -> tag r = wgen (ks me)).
+    out = [emit me (MHB (hb_write 2 payload (padding 16)))] /\
+    zlen (hb_write 2 payload (padding 16)) <= recsize (cf me).
 Proof.
   unfold on_heartbeat. destruct (hb_sup (cf me)); cbn [negb]; [|discriminate].
   destruct b as [|b0 b']; [discriminate|].
@@ -627,11 +623,12 @@ Proof.
   2:{ intros H. inversion H; subst. congruence. }
   destruct (ty =? 1) eqn:Ety.
   - destruct (hb_recv (cf me)); cbn [negb]; [|discriminate].
-    destruct (zlen pad <? 16) eqn:Ep; intros H; inversion H; subst; [congruence|].
+    destruct (zlen pad <? 16) eqn:Ep; [intros H; inversion H; subst; congruence|].
+    destruct (recsize (cf me) <? zlen (hb_write 2 payload (padding 16))) eqn:Er;
+      intros H; inversion H; subst; [congruence|].
     intros _. apply Z.eqb_eq in Ety. subst ty. exists payload, pad.
     split; [reflexivity|]. split; [lia|]. split; [reflexivity|]. split; [reflexivity|].
-    split. { unfold fragments. rewrite hb_bytes_map, chunks_concat. reflexivity. }
-    intros r Hr. apply in_map_iff in Hr. destruct Hr as [f [Hf _]]. subst r. reflexivity.
+    split; [reflexivity|lia].
   - destruct ((ty =? 2) && hb_cb (cf me)); intros H; inversion H; subst; congruence.
 Qed.
 
@@ -651,32 +648,29 @@ Proof.
   rewrite skipn_app, Nat.sub_diag, skipn_all. reflexivity.
 Qed.
 
-(* a request that fits into one record of the sender and whose answer fits into one record of
-   the responder is answered by exactly one record that parses to the same payload *)
-Lemma chunks_fits fuel n d : (length d <= n)%nat -> chunks fuel n d = [d].
-Proof.
-  intros H. destruct fuel; cbn [chunks]; [reflexivity|].
-  destruct (Nat.leb (length d) n) eqn:E; [reflexivity|]. apply Nat.leb_gt in E. lia.
-Qed.
-
+(* a request whose answer fits into one record of the responder is answered by exactly one
+   record that parses to the same payload; otherwise it is discarded without any record *)
 Lemma hb_request_answered me p padlen :
   hb_sup (cf me) = true -> hb_recv (cf me) = true -> zlen p < 65536 -> 16 <= padlen ->
-  3 + zlen p + 16 <= recsize (cf me) ->
-  exists resp, on_heartbeat me (hb_write 1 p (padding padlen)) = Some (me, [emit me (MHB resp)]) /\
-               hb_parse resp = Some (2, p, padding 16).
+  on_heartbeat me (hb_write 1 p (padding padlen)) =
+    Some (me, if recsize (cf me) <? 3 + zlen p + 16 then [] else [emit me (MHB (hb_write 2 p (padding 16)))]) /\
+  hb_parse (hb_write 2 p (padding 16)) = Some (2, p, padding 16).
 Proof.
-  intros Hs Hr Hp Hpad Hfit. exists (hb_write 2 p (padding 16)).
+  intros Hs Hr Hp Hpad.
   split; [|apply hb_roundtrip; exact Hp].
   unfold on_heartbeat. rewrite Hs. cbn [negb].
   change (hb_write 1 p (padding padlen)) with (1 :: zlen p / 256 :: zlen p mod 256 :: p ++ padding padlen) at 1.
   change (1 :: zlen p / 256 :: zlen p mod 256 :: p ++ padding padlen) with (hb_write 1 p (padding padlen)).
   rewrite hb_roundtrip by exact Hp. cbn [Z.eqb Pos.eqb]. rewrite Hr. cbn [negb].
-  assert (Hl : zlen (padding padlen) = padlen).
-  { unfold padding, zlen. rewrite repeat_length. lia. }
-  rewrite Hl. destruct (padlen <? 16) eqn:E; [lia|].
-  unfold fragments. rewrite chunks_fits; [reflexivity|].
-  unfold hb_write. cbn [app length]. rewrite app_length. unfold padding. rewrite repeat_length.
-  unfold zlen in Hfit. lia.
+  assert (Hl : forall n, 0 <= n -> zlen (padding n) = n).
+  { intros n Hn. unfold padding, zlen. rewrite repeat_length. lia. }
+  rewrite Hl by lia. destruct (padlen <? 16) eqn:E; [lia|].
+  assert (Hw : zlen (hb_write 2 p (padding 16)) = 3 + zlen p + 16).
+  { unfold hb_write. change ([2; zlen p / 256; zlen p mod 256] ++ p ++ padding 16)
+      with (2 :: zlen p / 256 :: zlen p mod 256 :: p ++ padding 16).
+    unfold zlen at 1. cbn [length]. rewrite app_length. fold (zlen (padding 16)).
+    pose proof (Hl 16 ltac:(lia)) as H16. unfold zlen in *. lia. }
+  rewrite Hw. destruct (recsize (cf me) <? 3 + zlen p + 16); reflexivity.
 Qed.
 
 (* ---- post-handshake authentication ------------------------------------------------------------ *)
@@ -717,10 +711,9 @@ Qed.
 (* ---- malformed / unsolicited / not permitted control records ------------------------------------ *)
 Lemma bad_control_fatal v13 me m inc' d :
   bad_control v13 me m = Some d ->
-  ~ (m = MNST /\ v13 = true /\ is_cl (cf me) = false) ->
   rloop v13 me (mkrec (rgen (ks me)) m :: inc') = die me inc' d.
 Proof.
-  intros H Hn. cbn [rloop tag body]. rewrite Z.eqb_refl. cbn [negb].
+  intros H. cbn [rloop tag body]. rewrite Z.eqb_refl. cbn [negb].
   destruct m; cbn [bad_control] in H; try discriminate; try (inversion H; subst; reflexivity).
   - (* MKU *)
     destruct (negb v13); [inversion H; reflexivity|].
@@ -734,8 +727,7 @@ Proof.
     destruct (ty =? 1); cbn [andb] in H; [|discriminate].
     destruct (negb (hb_recv (cf me))); [inversion H; reflexivity|discriminate].
   - (* MNST *)
-    destruct v13; cbn [andb] in H; [|inversion H; reflexivity].
-    destruct (is_cl (cf me)) eqn:E; [discriminate|]. exfalso. apply Hn. auto.
+    destruct (v13 && is_cl (cf me)); [discriminate|inversion H; reflexivity].
   - (* MCertReq *)
     destruct (v13 && is_cl (cf me) && pha_key (cf me)); [|inversion H; reflexivity].
     destruct wf; [discriminate|inversion H; reflexivity].
@@ -815,21 +807,3 @@ Proof.
   destruct Hx as (H1 & H2 & H3 & H4 & H5). split; [exact H3|]. split; [exact H1|].
   intros c Hc. destruct (H4 c Hc). tauto.
 Qed.
-
-(* ---- witnesses (the full statements are false of the faithful model) --------------------------- *)
-Definition ov_payload : list Z := repeat 0 17 ++ [1; 0; 1; 9] ++ repeat 5 16.
-
-Lemma hb_oversize_witness : exists cc sc ops payload,
-  let s := exec (init true cc sc 0) ops in
-  In (true, OHeartbeat payload 0) ops /\ hb_got (ms (ea s)) = [[9]] /\ payload <> [9].
-Proof.
-  exists (mkcfg true true true true true true false false 7 20 0), ex_sc,
-         [(true, OHeartbeat ov_payload 0); (false, ORead 0); (true, ORead 0)], ov_payload.
-  split; [left; reflexivity|]. split; [vm_compute; reflexivity|discriminate].
-Qed.
-
-Lemma nst_to_server_witness : exists me inc',
-  bad_control true me MNST = Some 10 /\
-  closed (io (fst (fst (fst (rloop true me (mkrec (rgen (ks me)) MNST :: inc')))))) = false /\
-  tickets (ms (fst (fst (fst (rloop true me (mkrec (rgen (ks me)) MNST :: inc')))))) = 1.
-Proof. exists (ep0 ex_sc), []. vm_compute. repeat split. Qed.
